@@ -13,14 +13,18 @@ Clause "the formatted text parses to the same description" - the link between th
     the same token, whatever delimiter follows (for durations: `)`, `/`, a blank, the end - anything but a digit);
   * `scanner_reads_back_stream`: tokens that are read back one by one are read back as a stream, in order, nothing
     lost, nothing invented.
-  FULL STATEMENT (not proven): for every well-formed program `a`, `toToks (scanAll (layout (print a))) = print a`
-  where `layout` writes the line breaks the `nl` flags ask for; proven here is the `_partial` form with blanks as the
-  only separators (all tokens on line 1) and for the token classes named above (punctuation, `@doc`/`@handler`/`@server`,
-  `interface{}` and `...` are checked by evaluation, see the examples). The driver checks the full statement on every
-  generated program (scanner model on the source = real tokens; model parser on them = real AST).
+  * `scanner_reads_back_layout`: the same with line breaks - a stream laid out with one blank or one LINE FEED in front
+    of every token scans to exactly that stream, `nl` flags included, no comment flags;
+  * END TO END (scanner -> parser -> formatter): `text_roundtrip` (the laid-out text of `print a` scans and parses back
+    to `a`) and `text_format_correct` (the text of the formatted program scans and parses to a program with the same
+    description whose formatting writes the same tokens), for every well-formed program whose printed tokens are
+    lexically what their kind says (`Reads2`; `reads2_ident`, `reads2_single` and the single-token theorems give it).
+  STILL PARTIAL: `Reads2` is a hypothesis about the token TEXTS in the AST (an AST may hold any string as an identifier);
+  the layout is the canonical one, not the tabwriter's (alignment, comments: tested by the driver on every program).
 Defect witnesses (real code, see props/C20.json): `nul_truncates_witness`, `at_end_witness`.
 -/
 import GoZero.C20.ProofsScan
+import GoZero.C20.Props
 namespace GoZero.C20.Scan
 
 /-- PROGRESS. Every token was read from the input - except the ILLEGAL `@` of an `@` that is the last rune. -/
@@ -114,6 +118,54 @@ example : scanAll (render [(.tok .IDENT, "type".toList), (.tok .IDENT, "User".to
 example : scanAll "a // c\n/* x */ b".toList
     = .ok [⟨.tok .IDENT, ['a'], 1⟩, ⟨.comment, "// c".toList, 1⟩, ⟨.document, "/* x */".toList, 2⟩, ⟨.tok .IDENT, ['b'], 2⟩] := by
   decide
+
+
+/-! ### round 4: text level, line breaks included, and the end-to-end compositions -/
+
+/-- THE FORMATTED TEXT IS READ BACK AS THE TOKENS THAT WERE WRITTEN, line-break flags included (`scan_layout`):
+a token stream whose first token starts a line and whose tokens are each read back in front of a blank / a line feed /
+the end (`Reads2`), laid out with one blank or one line feed in front of every token, scans to exactly that stream -/
+theorem scanner_reads_back_layout (t : WTok) (ts : List WTok) (h : ∀ u ∈ t :: ts, Reads2 u.k u.w) (h1 : t.nl = true) :
+    ∃ rs, scanAll (layout (t :: ts)) = .ok rs ∧ toToks 0 rs = (t :: ts).map toTok :=
+  scan_layout t ts h h1
+
+/-- END TO END, TEXT LEVEL (scanner -> parser): the text laid out from the tokens `print a` of a well-formed program -
+one blank or one line feed in front of every token - scans and parses back to exactly `a`, provided every printed
+token is lexically what its kind says (`Reads2`: `reads2_ident`, `reads2_single`, and the single-token theorems). -/
+theorem text_roundtrip (a : Api) (hw : WF a) (t : WTok) (ts : List WTok) (hp : print a = (t :: ts).map toTok)
+    (h : ∀ u ∈ t :: ts, Reads2 u.k u.w) (h1 : t.nl = true) :
+    ∃ rs, scanAll (layout (t :: ts)) = .ok rs ∧ parse (toToks 0 rs) = some a := by
+  obtain ⟨rs, h2, h3⟩ := scan_layout t ts h h1
+  exact ⟨rs, h2, by rw [h3, ← hp]; exact parse_print a hw⟩
+
+/-- END TO END, TEXT LEVEL (scanner -> parser -> formatter), the property's second and third clause: the text of the
+formatted program scans and parses, to a program with the same API description, and formatting that writes the same
+tokens again. -/
+theorem text_format_correct (a : Api) (hw : WF a) (t : WTok) (ts : List WTok) (hp : format a = (t :: ts).map toTok)
+    (h : ∀ u ∈ t :: ts, Reads2 u.k u.w) (h1 : t.nl = true) :
+    ∃ rs b, scanAll (layout (t :: ts)) = .ok rs ∧ parse (toToks 0 rs) = some b ∧ sameDesc a b = true ∧
+      format b = format a := by
+  obtain ⟨rs, h2, h3⟩ := scan_layout t ts h h1
+  obtain ⟨b, hb, hd, hf, _⟩ := format_correct a hw
+  exact ⟨rs, b, h2, by rw [h3, ← hp]; exact hb, hd, hf⟩
+
+def sampleText : List WTok :=
+  [⟨true, .IDENT, "type".toList⟩, ⟨false, .IDENT, "Empty".toList⟩, ⟨false, .LBRACE, ['{']⟩, ⟨false, .RBRACE, ['}']⟩]
+
+def sampleProg : Api := [.typeLit { name := "Empty", assign := false, ty := .struct .nil }]
+
+theorem sampleText_reads : ∀ u ∈ sampleText, Reads2 u.k u.w := by
+  intro u hu
+  simp [sampleText] at hu
+  rcases hu with rfl | rfl | rfl | rfl
+  · exact reads2_ident 't' "ype".toList (by decide) (by decide) (by decide)
+  · exact reads2_ident 'E' "mpty".toList (by decide) (by decide) (by decide)
+  · exact reads2_single '{' .LBRACE (by decide) (by decide) (by decide) (by decide) (by decide) (by decide) (by decide)
+  · exact reads2_single '}' .RBRACE (by decide) (by decide) (by decide) (by decide) (by decide) (by decide) (by decide)
+
+example : ∃ rs, scanAll "\ntype Empty { }".toList = .ok rs ∧ parse (toToks 0 rs) = some sampleProg :=
+  text_roundtrip sampleProg (by intro s hs; simp [sampleProg] at hs; subst hs; exact ⟨by decide, by simp [wfDT, wfFields]⟩)
+    ⟨true, .IDENT, "type".toList⟩ sampleText.tail (by decide) sampleText_reads rfl
 
 /-! ### defect witnesses (the model follows the real code; both are reproduced on the real scanner by the harness) -/
 
